@@ -1164,6 +1164,7 @@ fn w_c12_flush() {
         assert!(r.result.is_ok(), "[C12.w.run] failed at split {}: {:?}", split, r.result);
         let w = r.net.0.borrow().waited_unflushed.clone();
         assert!(w.is_empty(), "[C12.w.flush] the server waited for input at read {} while {} reply byte(s) were unflushed (stream split after {} bytes)", w[0].0, w[0].1, split);
+        { let n = r.net.0.borrow(); assert!(n.flushed == n.out.len(), "[C12.w.flush] run_on returned Ok while {} reply byte(s) were never flushed (pipelined commands ending in QUIT, stream split after {} bytes)", n.out.len() - n.flushed, split); }
         cases += 1;
     }
     // lock-step: every read delivers exactly one command, so the server waits for input after every reply -- also after
@@ -1456,6 +1457,15 @@ fn w_c19_faults() {
         let at_boundary = boundaries.contains(&cut);
         assert!(r.result.is_ok() == at_boundary, "[C19.w.eof] stream ending after {} bytes ({}a command boundary) gave {:?}", cut, if at_boundary { "" } else { "not " }, r.result);
         cases += 1;
+    }
+    // a connection that ends with Ok has flushed everything it wrote (otherwise a failing flush could never be reported):
+    // the same commands pipelined in ONE read and closed by COM_QUIT, and closed by the end of the stream
+    for closing in [vec![quit()], vec![]] {
+        let mut pc = cmds.clone();
+        pc.extend(closing.clone());
+        let r = converse(hs.clone(), &pc, vec![], false, None, None);
+        let n = r.net.0.borrow();
+        assert!(r.result.is_ok() && n.flushed == n.out.len(), "[C19.w.flushall] run_on returned {:?} with {} reply byte(s) never handed to flush (pipelined conversation{})", r.result, n.out.len() - n.flushed, if closing.is_empty() { "" } else { " ending in QUIT" });
     }
     // a transport error at operation k (one-off and persistent): Err, and no callback afterwards
     let clean = converse(hs.clone(), &cmds, vec![], false, None, None);
